@@ -4,13 +4,18 @@ column present, a numpy array, of the common length len(table)), its index is
 among its columns, scalars are carried over by row and column selection, the
 source table is untouched by the derivation (length, column list, cell values,
 scalars), and column expressions evaluate element-wise.
+Names in an expression denote the TABLE's entries first: the unchanged code
+evaluates eval(expr, gblmath, table._data), i.e. a column or scalar named like a
+name of the math namespace (numpy ufuncs and `np`: sign, power, mod, exp, ...)
+is the table's entry, not the numpy object.  {"meta": "gblmath"} on stdin returns
+the names of that namespace, read from xdeps.table at run time.
 
 stdin : {"cases": [{"data": [[key, kind, value]..], "col_names": [..]|null, "index": str, "ops": [op..]}]}
         kind: "float"|"int"|"str"|"obj" (1-d arrays), "vec2"|"vec3"|"mat" (one vector / 2x2 matrix per
               row: arrays of shape (n,2), (n,3), (n,2,2); values = one flat list per row), "scalar"
         op : ["rows", sel] | ["cols", [names], "str"|"list"] | ["addself"] | ["addrows", sel] | ["mul", k]
            | ["copy"] | ["t"] | ["concat", [sel..]] | ["set", key, ["arr", kind, vals] | ["scalar", v]]
-           | ["expr", text, "item"|"cols"] | ["del", key]
+           | ["expr", text, "item"|"cols"] | ["expr", text, "cell", row] (t[text], t.cols[text], t[text, row]) | ["del", key]
            | ["stay", op]  (the derivation op is made from the current table and checked, the current
                             table stays current: selections and assignments interleave on one source)
         sel: ["poslist", [..]] | ["slice", lo, hi] | ["mask", [..]]
@@ -155,21 +160,56 @@ def pyval(x):
     return x
 
 
-def elementwise_failures(src, text, got):
-    """got must be the element-wise value of the expression on the columns"""
+def ref_values(src, text):
+    """element-wise value of an arithmetic expression over the numeric columns
+    and numeric scalar entries of the table, row by row with Python scalars.
+    The table's own entries are the only names: an entry named like a numpy
+    function (sign, power, exp, np, ...) is the entry, as in the unchanged
+    implementation (eval(expr, gblmath, self._data): the table's dictionary is
+    the local namespace and wins over the math namespace).
+    None = not such an expression (no verdict)."""
+    import ast
     n = len(src)
+    cols, scal = {}, {}
+    for k, v in src._data.items():
+        if isinstance(v, np.ndarray):
+            if k in src._col_names and v.ndim == 1 and v.dtype.kind in "fi" and len(v) == n:
+                cols[k] = v
+        elif isinstance(v, (int, float, np.integer, np.floating)) and not isinstance(v, (bool, np.bool_)):
+            scal[k] = pyval(v)
+    try:
+        used = {x.id for x in ast.walk(ast.parse(text, mode="eval")) if isinstance(x, ast.Name)}
+    except SyntaxError:
+        return None
+    if not used or not used <= set(cols) | set(scal) or not used & set(cols):
+        return None
+    out = []
+    for i in range(n):
+        env = dict(scal)
+        env.update({c: pyval(v[i]) for c, v in cols.items()})
+        try:
+            out.append(eval(text, {"__builtins__": {}}, env))
+        except Exception:  # noqa
+            return None
+    return out
+
+
+def elementwise_failures(src, text, got, row=None):
+    """got must be the element-wise value of the expression on the columns
+    (row given: the value of that row)"""
+    want = ref_values(src, text)
+    if want is None:
+        return []
+    n = len(src)
+    if row is not None:
+        if canon_cell(want[row]) != canon_cell(pyval(got)):
+            return [f"expression {text!r} at row {row} is {canon_cell(pyval(got))}, element-wise value is {canon_cell(want[row])}"]
+        return []
     if not isinstance(got, np.ndarray) or got.shape != (n,):
         return [f"expression {text!r}: result is not one value per row"]
     for i in range(n):
-        try:
-            env = {c: pyval(src._data[c][i]) for c in src._col_names
-                   if isinstance(src._data.get(c), np.ndarray) and src._data[c].ndim == 1
-                   and src._data[c].dtype.kind in "fi" and len(src._data[c]) == n}
-            want = eval(text, {"__builtins__": {}}, env)
-        except Exception:  # noqa
-            return []      # not an arithmetic expression over the numeric columns of this table: no verdict
-        if canon_cell(want) != canon_cell(pyval(got[i])):
-            return [f"expression {text!r}: row {i} is {canon_cell(pyval(got[i]))}, element-wise value is {canon_cell(want)}"]
+        if canon_cell(want[i]) != canon_cell(pyval(got[i])):
+            return [f"expression {text!r}: row {i} is {canon_cell(pyval(got[i]))}, element-wise value is {canon_cell(want[i])}"]
     return []
 
 
@@ -223,14 +263,26 @@ def run_case(case):
             elif kind == "del":
                 del cur[op[1]]
             elif kind == "expr":
-                got = cur[op[1]] if op[2] == "item" else cur.cols[op[1]][op[1]]
-                f += elementwise_failures(cur, op[1], got)
+                if op[2] == "cell":
+                    got = cur[op[1], int(op[3])]
+                    f += elementwise_failures(cur, op[1], got, row=int(op[3]) % max(len(cur), 1))
+                else:
+                    got = cur[op[1]] if op[2] == "item" else cur.cols[op[1]][op[1]]
+                    f += elementwise_failures(cur, op[1], got)
             else:
                 raise RuntimeError("unknown op " + kind)
             res = ["ok", shape(new if new is not None else cur)]
         except Exception as e:  # noqa
             res = exc(e)
             new = None
+            # an arithmetic expression over the table's numeric entries has a value: it must not raise
+            texts = [op[1]] if kind == "expr" else [c for c in op[1] if is_expr(c, cur)] if kind == "cols" else []
+            if kind == "cols" and any(c not in cur._data and ref_values(cur, c) is None for c in op[1]):
+                texts = []      # some other request is not evaluable: the exception may be its
+            for tx in texts:
+                if ref_values(cur, tx) is not None and not (kind == "expr" and op[2] == "cell" and not -len(cur) <= int(op[3]) < len(cur)):
+                    f.append(f"expression {tx!r} raises {res[1]} although it has an element-wise value")
+                    break
         if kind not in ("set", "del"):
             after = snapshot(cur)
             if after != before:
@@ -305,6 +357,10 @@ def run_case(case):
 
 def main():
     inp = json.load(sys.stdin)
+    if inp.get("meta") == "gblmath":
+        import xdeps.table as xt
+        json.dump({"gblmath": sorted(k for k in xt.gblmath if isinstance(k, str) and k.isidentifier())}, sys.stdout)
+        return
     C, O, F = [], [], []
     for case in inp["cases"]:
         with contextlib.redirect_stdout(io.StringIO()):     # the constructor prints column lengths on failure
